@@ -223,6 +223,92 @@ def rule_directive(chk, prog, tier):
     r.exhaustive = False
 
 
+def pp_concrete(prog, text_, maxtok=40):
+    """the whole front end on concrete characters: real scanfrom/nextchar/scankind/scan/next/directive/scansetloc with getc scripted;
+    -> [(kind name, spelling or None, file, line, col)] of the tokens next() delivers"""
+    data = list(text_.encode()) + [-1]
+    tokname = {v: k for k, v in cmodel.enum_names(prog, 'tokenkind')}
+    def runner(it):
+        it.MAX_STEPS = 2000000
+        pos = {'i': 0}
+        def getc(it2, a, e):
+            ch = data[min(pos['i'], len(data) - 1)]
+            if pos['i'] < len(data) - 1: pos['i'] += 1
+            return ch
+        def ungetc(it2, a, e):
+            if a[0] != -1: pos['i'] -= 1
+            return 0
+        def xmalloc(i2, a, e):
+            o = Obj('heap@%s' % e.get('line'), 'heap')
+            return Ptr(o, ())
+        def xrealloc(i2, a, e):
+            o = Obj('buf@%s' % e.get('line'), 'heap'); o.bytebuf = True
+            old = a[0]
+            if isinstance(old, Ptr):
+                for k, v in old.obj.f.items(): o.f[k] = v
+            return Ptr(o, (0,))
+        def bufget(i2, a, e):
+            b = a[0]
+            n = i2.load(b.obj, b.path + ('len',))
+            st = i2.load(b.obj, b.path + ('str',))
+            bs = [i2.load(st.obj, (k,)) for k in range(n)]
+            i2.assign(b.obj, b.path + ('len',), 0)
+            so = i2.mkstr(bs, 'lit'); so.writable = True
+            return Ptr(so, (0,))
+        def strchr(it2, a, e):
+            s_, ch = a
+            dat = read_cstr(it2, s_) + [0]
+            for k, b in enumerate(dat):
+                if b == (ch & 0xff): return Ptr(s_.obj, s_.path[:-1] + (s_.path[-1] + k,))
+            return None
+        it.models.update({'getc': getc, 'ungetc': ungetc, 'ferror': lambda i2, a, e: 0, 'xmalloc': xmalloc, 'xreallocarray': xrealloc, 'bufget': bufget, 'free': lambda i2, a, e: None,
+                          'strtoull': lambda i2, a, e: int(bytes(read_cstr(i2, a[0])).decode(), 0), 'strchr': strchr, 'fclose': lambda i2, a, e: 0,
+                          'error': lambda i2, a, e: (_ for _ in ()).throw(Terminal('error', cmodel.fmt_of(i2, a, 1))),
+                          'fatal': lambda i2, a, e: (_ for _ in ()).throw(Terminal('fatal', cmodel.fmt_of(i2, a, 0)))})
+        name = Ptr(it.mkstr(list(b'in.c'), 'name'), (0,))
+        it.call(prog.require_func('scanfrom', 'scan.c'), [name, Ptr(Obj('FILE', 'heap'), ())])
+        it.call(prog.require_func('ppinit'), [])
+        tokobj = it.gobj('tok'); out = []
+        for _ in range(maxtok):
+            k = tokobj.f[('kind',)]
+            if k == ev(prog, 'TEOF'): break
+            lit = tokobj.f.get(('lit',)); f = tokobj.f.get(('loc', 'file'))
+            out.append((tokname.get(k, k), bytes(read_cstr(it, lit)).decode() if isinstance(lit, Ptr) else None,
+                        bytes(read_cstr(it, f)).decode() if isinstance(f, Ptr) else None, tokobj.f.get(('loc', 'line')), tokobj.f.get(('loc', 'col'))))
+            it.call(prog.require_func('next', 'pp.c'), [])
+        return out
+    runs = explore(prog, runner, {}, max_runs=2, on_unsupported='keep')
+    if len(runs) != 1:
+        raise AnalysisBroken('pp_concrete(%r): %d paths' % (text_, len(runs)))
+    return runs[0]
+
+
+def rule_line_positions(chk, prog, tier):
+    r = chk.rule('C11.h', 'after #line / a line marker the presumed line numbering continues exactly from the directive, whatever the next line looks like (blank, spliced, comment, another directive): every later token reports file, line and column as C11 6.10.4 prescribes',
+                 floor=20, oracle='C11 6.10.4p3: the line following the directive has the given number')
+    heads = [('#line 10\n', 10, None), ('# 20 "foo.c"\n', 20, 'foo.c'), ('#line 7 "g.c"\n', 7, 'g.c'), ('# 5 "h.h" 1 3\n', 5, 'h.h')]
+    tails = [('x;', [('x', 0, 1)]), ('\nx;', [('x', 1, 1)]), ('\n\n  x;', [('x', 2, 3)]), ('\\\nx;', [('x', 1, 1)]), ('/* c */ x;', [('x', 0, 9)]), ('/* a\nb */ x;', [('x', 1, 6)]),
+             ('// c\nx;', [('x', 1, 1)]), ('#pragma p\nx;', [('x', 1, 1)]), ('  \nx y\nz', [('x', 1, 1), ('y', 1, 3), ('z', 2, 1)]), ('a\\\nb\nx', [('ab', 0, 1), ('x', 2, 1)])]
+    for pre in ('', 'int q;\n\n'):
+        for head, line, file in heads:
+            for tail, wants in tails:
+                src = pre + head + tail
+                run = pp_concrete(prog, src)
+                key = 'line-after:%r' % src
+                if run.outcome == 'unsupported':
+                    raise AnalysisBroken('%s: %s' % (key, run.detail))
+                if run.outcome != 'return':
+                    r.instance(False, key, 'pp.c:directive', 'valid input rejected: %s %s' % (run.outcome, run.detail)); continue
+                got = {t[1]: (t[2], t[3], t[4]) for t in run.value if t[0] == 'TIDENT' and t[1] != 'q'}
+                bad = []
+                for name, dl, col in wants:
+                    g = got.get(name)
+                    w_ = (file or 'in.c', line + dl, col)
+                    if g != w_: bad.append('%s at %s, expected %s' % (name, g, w_))
+                r.instance(not bad, key, 'pp.c:directive / scan.c:scansetloc', '; '.join(bad))
+    r.exhaustive = False
+
+
 def rule_errorlocs(chk, prog, tier):
     r = chk.rule('C11.f', 'every error() call names a location taken from a token or the scanner position; decode errors inside a concatenated string literal use the offending piece\'s own location', floor=150)
     ok_forms = ('&tok.loc', '&t->loc', '&s->loc', '&p->loc', 'loc', '&scanner->loc')
@@ -302,3 +388,4 @@ def run(chk, tier):
     chk.guard('C11.e', lambda: rule_directive(chk, prog, tier))
     chk.guard('C11.f', lambda: rule_errorlocs(chk, prog, tier))
     chk.guard('C11.g', lambda: rule_tokencheck(chk, prog, tier))
+    chk.guard('C11.h', lambda: rule_line_positions(chk, prog, tier))
